@@ -106,3 +106,138 @@ Proof.
   - unfold inv; cbn [cyc tok rl0]; rewrite Z.div_0_l by lia; lia.
   - intros k Hk. cbn [cyc rl0] in Hk. unfold count_eq, next_slot, clamp; cbn [fold_left cyc tok rl0]. nia.
 Qed.
+
+(** ** Soundness of the trace checker against the declarative property
+
+    The converse direction: whatever produced the observed trace [obs] for the
+    arrivals [ops] (the implementation, not the model), if [prop_unit] accepts it
+    then the clauses of the property hold of that trace, stated with explicit
+    quantifiers over its positions. *)
+Fixpoint releases (p : policy) (ops obs : list (Z * Z)) : list Z :=
+  match ops, obs with
+  | (el, _) :: ot, (code, w) :: bt =>
+      if code =? 1 then ((el + w) ÷ pP p) :: releases p ot bt else releases p ot bt
+  | _, _ => []
+  end.
+
+Lemma count_eq_nonneg k l : 0 <= count_eq k l.
+Proof.
+  induction l as [|x t IH]; [unfold count_eq; cbn [fold_left]; lia|].
+  rewrite count_eq_cons. destruct (x =? k); lia.
+Qed.
+
+Lemma horizon_full_inv p hist c n :
+  horizon_full p hist c n = true ->
+  forall k, c <= k <= c + Z.of_nat n -> count_eq k hist = pL p.
+Proof.
+  revert c. induction n as [|n IH]; intros c H k Hk; cbn [horizon_full] in H;
+    apply andb_true_iff in H as (H0 & H1); apply Z.eqb_eq in H0.
+  - assert (k = c) by lia. subst k. exact H0.
+  - destruct (Z.eq_dec k c) as [->|Hne]; [exact H0|]. apply (IH (c + 1) H1). lia.
+Qed.
+
+(** (1) per-period release bound: no period receives more than L releases *)
+Lemma checker_release_bound p : forall ops obs hist,
+  prop_unit p hist ops obs = true ->
+  (forall k, count_eq k hist <= pL p) ->
+  forall k, count_eq k hist + count_eq k (releases p ops obs) <= pL p.
+Proof.
+  induction ops as [|[el c] ot IH]; intros [|[code w] bt] hist H Hh k; cbn [prop_unit releases] in *;
+    try discriminate.
+  - unfold count_eq at 2; cbn [fold_left]. specialize (Hh k). lia.
+  - destruct (code =? 1) eqn:E1.
+    + apply andb_true_iff in H as (H & Hrest). apply andb_true_iff in H as (H & Hcnt).
+      apply Z.ltb_lt in Hcnt.
+      rewrite count_eq_cons.
+      assert (Hh' : forall k0, count_eq k0 (((el + w) ÷ pP p) :: hist) <= pL p).
+      { intros k0. rewrite count_eq_cons. destruct ((el + w) ÷ pP p =? k0) eqn:E.
+        - apply Z.eqb_eq in E. subst k0. lia.
+        - specialize (Hh k0). lia. }
+      specialize (IH bt _ Hrest Hh' k). rewrite count_eq_cons in IH. lia.
+    + destruct (code =? 0) eqn:E0; [|discriminate].
+      apply andb_true_iff in H as (_ & Hrest). exact (IH bt hist Hrest Hh k).
+Qed.
+
+(** (2) every arrival is either admitted with a wait in [0, T] or rejected; the trace is complete *)
+Lemma checker_wait_bound p : forall ops obs hist,
+  prop_unit p hist ops obs = true ->
+  Forall2 (fun (_ : Z * Z) (o : Z * Z) => (fst o = 1 /\ 0 <= snd o <= pT p) \/ fst o = 0) ops obs.
+Proof.
+  induction ops as [|[el c] ot IH]; intros [|[code w] bt] hist H; cbn [prop_unit] in *; try discriminate.
+  - constructor.
+  - destruct (code =? 1) eqn:E1.
+    + apply Z.eqb_eq in E1. apply andb_true_iff in H as (H & Hrest).
+      apply andb_true_iff in H as (H & _). apply andb_true_iff in H as (H & _).
+      apply andb_true_iff in H as (Hw0 & HwT). constructor; [left; cbn [fst snd]; lia | exact (IH bt _ Hrest)].
+    + destruct (code =? 0) eqn:E0; [|discriminate]. apply Z.eqb_eq in E0.
+      apply andb_true_iff in H as (_ & Hrest). constructor; [right; exact E0 | exact (IH bt _ Hrest)].
+Qed.
+
+(** (3) position-wise: at every position of the trace, with [cnt k] = number of earlier admitted
+    requests released in period k: an admitted request arriving while its own period has a spare
+    permit waits 0; a request is rejected only when every period from its own up to the timeout
+    horizon is fully reserved *)
+Lemma checker_positions p : forall ops1 obs1 hist el c ops2 code w obs2,
+  List.length ops1 = List.length obs1 ->
+  prop_unit p hist (ops1 ++ (el, c) :: ops2) (obs1 ++ (code, w) :: obs2) = true ->
+  let cnt k := count_eq k hist + count_eq k (releases p ops1 obs1) in
+  (code = 1 -> cnt (el ÷ pP p) < pL p -> w = 0) /\
+  (code = 1 -> cnt ((el + w) ÷ pP p) < pL p) /\
+  (code = 0 -> forall k, el ÷ pP p <= k <= el ÷ pP p + Z.of_nat (Z.to_nat (pT p ÷ pP p)) -> cnt k = pL p).
+Proof.
+  induction ops1 as [|[el0 c0] ot IH]; intros [|[code0 w0] bt] hist el c ops2 code w obs2 Hlen H;
+    cbn [List.length] in Hlen; try discriminate; cbn [app prop_unit releases] in *.
+  - assert (Hz : forall k, count_eq k hist + count_eq k [] = count_eq k hist)
+      by (intros k; unfold count_eq at 2; cbn [fold_left]; lia).
+    destruct (code =? 1) eqn:E1.
+    + apply andb_true_iff in H as (H & _). apply andb_true_iff in H as (H & Hcnt).
+      apply andb_true_iff in H as (_ & Hsp). apply Z.ltb_lt in Hcnt.
+      repeat split.
+      * intros _ Hlt. rewrite Hz in Hlt. apply Z.ltb_lt in Hlt. rewrite Hlt in Hsp. apply Z.eqb_eq in Hsp. exact Hsp.
+      * intros _. rewrite Hz. exact Hcnt.
+      * intros ->. discriminate E1.
+    + destruct (code =? 0) eqn:E0; [|discriminate].
+      apply andb_true_iff in H as (Hf & _).
+      repeat split; try (intros ->; discriminate E1).
+      intros _ k Hk. rewrite Hz. apply (horizon_full_inv p hist _ _ Hf k). exact Hk.
+  - injection Hlen as Hlen.
+    destruct (code0 =? 1) eqn:E1.
+    + apply andb_true_iff in H as (_ & Hrest).
+      specialize (IH bt _ el c ops2 code w obs2 Hlen Hrest). cbv zeta in IH.
+      assert (Hc : forall k, count_eq k (((el0 + w0) ÷ pP p) :: hist) + count_eq k (releases p ot bt)
+                        = count_eq k hist + count_eq k (((el0 + w0) ÷ pP p) :: releases p ot bt))
+        by (intros k; rewrite !count_eq_cons; lia).
+      destruct IH as (I1 & I2 & I3). repeat split.
+      * intros Hc1 Hlt. apply I1; [exact Hc1|]. rewrite Hc. exact Hlt.
+      * intros Hc1. rewrite <- Hc. apply I2. exact Hc1.
+      * intros Hc0 k Hk. rewrite <- Hc. apply I3; assumption.
+    + destruct (code0 =? 0) eqn:E0; [|discriminate].
+      apply andb_true_iff in H as (_ & Hrest).
+      exact (IH bt _ el c ops2 code w obs2 Hlen Hrest).
+Qed.
+
+Theorem trace_checker_sound p ops obs :
+  prop_unit p [] ops obs = true -> 0 <= pL p ->
+  (forall k, count_eq k (releases p ops obs) <= pL p) /\
+  Forall2 (fun (_ : Z * Z) (o : Z * Z) => (fst o = 1 /\ 0 <= snd o <= pT p) \/ fst o = 0) ops obs /\
+  (forall ops1 obs1 el c ops2 code w obs2,
+     ops = ops1 ++ (el, c) :: ops2 -> obs = obs1 ++ (code, w) :: obs2 -> List.length ops1 = List.length obs1 ->
+     let cnt k := count_eq k (releases p ops1 obs1) in
+     (code = 1 -> cnt (el ÷ pP p) < pL p -> w = 0) /\
+     (code = 1 -> cnt ((el + w) ÷ pP p) < pL p) /\
+     (code = 0 -> forall k, el ÷ pP p <= k <= el ÷ pP p + Z.of_nat (Z.to_nat (pT p ÷ pP p)) -> cnt k = pL p)).
+Proof.
+  intros H HL. split; [|split].
+  - intros k. pose proof (checker_release_bound p ops obs [] H) as B.
+    assert (Hh : forall k0, count_eq k0 [] <= pL p) by (intros k0; unfold count_eq; cbn [fold_left]; lia).
+    specialize (B Hh k). unfold count_eq at 1 in B. cbn [fold_left] in B. lia.
+  - exact (checker_wait_bound p ops obs [] H).
+  - intros ops1 obs1 el c ops2 code w obs2 -> -> Hlen.
+    pose proof (checker_positions p ops1 obs1 [] el c ops2 code w obs2 Hlen H) as P. cbv zeta in P.
+    assert (Hz : forall k, count_eq k [] + count_eq k (releases p ops1 obs1) = count_eq k (releases p ops1 obs1))
+      by (intros k; unfold count_eq at 1; cbn [fold_left]; lia).
+    cbv zeta. destruct P as (P1 & P2 & P3). repeat split.
+    + intros Hc Hlt. apply P1; [exact Hc|]. rewrite Hz. exact Hlt.
+    + intros Hc. rewrite <- Hz. apply P2. exact Hc.
+    + intros Hc k Hk. rewrite <- Hz. apply P3; assumption.
+Qed.
